@@ -376,3 +376,23 @@ def gen_config(seed, n):
             lines.append("fn vibc %s" % hx(rnd.choice([D, corrupt_ibc(rnd)])))
             lines.append("fn vdenom %s" % hx(rnd.choice(["stTIA", corrupt_denom(rnd)])))
     return "\n".join(lines) + "\n", {"histories": n}
+
+
+# ---------------- C09: hook-sender derivation, SHA-256, bech32 ----------------
+def gen_hook(seed, n):
+    rnd = random.Random(seed)
+    lines = [header()]
+    # every message length across the SHA-256 padding boundaries
+    for l in range(0, 131):
+        lines.append("fn sha256 %s" % hx(bytes(rnd.getrandbits(8) for _ in range(l))))
+    prefixes = ["osmo", "celestia", "init", "a", "x" * 83, "OSMO", "o/s", "cosmos1", "", "Osmo", "x" * 84, "os mo", "~!"]
+    for k in range(n):
+        ch = rnd.choice(["channel-%d" % rnd.randrange(10 ** rnd.randrange(1, 19)), "channel-0", "channel-007", "channel-", "channel/1", ""])
+        snd = rnd.choice([b32.addr("celestia", "s%d" % k), b32.addr("celestia", "s%d" % k).upper(), "", "a/b", "x" * rnd.randrange(1, 120),
+                          b32.addr("osmo", "c%d" % k, 32)])
+        pf = rnd.choice(prefixes if rnd.random() < 0.4 else ["osmo"])
+        lines.append("fn derive %s %s %s" % (hx(ch), hx(snd), hx(pf)))
+    for k in range(n // 4):
+        a = b32.addr(rnd.choice(["osmo", "celestia", "x" * 20]), "d%d" % k, rnd.choice([20, 32, 1, 0, 50]), rnd.choice([1, 1, 0x2bc830a3]))
+        lines.append("fn b32dec %s" % hx(rnd.choice([a, a.upper(), corrupt_addr(rnd, a, "osmo"), a[:4] + a[4:].upper()])))
+    return "\n".join(lines) + "\n", {"cases": len(lines)}
